@@ -153,6 +153,9 @@ func genC16(x *Ctx) *c16Scen {
 			r.Coding = []string{"gzip", "", "deflate", "gzip"}[tp.G(4)]
 			r.Pretty = tp.Bool()
 			r.Size = tp.G(maxSize + 1)
+			if tp.Chance(40) {
+				r.Size = []int{4096, 5000, 9000}[tp.G(3)] // beyond one bufio buffer of the streaming encoders
+			}
 			r.Seed = tp.G(1 << 20)
 			r.BChunks = chunkPlan(tp, tp.Range(1, 3), 97)
 			if tp.Chance(450) {
